@@ -230,10 +230,10 @@ TEXT["C14"] = _t("Every WebSocket method string (six request types) and HTTP GET
                  "exhaustive input table through the real WS/HTTP handlers checked by TLC against spec/fn/ResSubject.tla; malformed-subject rule of the observer on all gateway traces",
                  note="Symbol alphabet, not all byte strings; inputs that Go's HTTP request parser rejects before the handler are outside the table. " + GW_NOTE)
 
-PROPS["C17"] = dict(run=tables.tables_run(["httpstatus", "origin"], "HTTP status / meta / CORS"))
+PROPS["C17"] = dict(run=tables.tables_run(["httpstatus", "origin", "wsupgrade"], "HTTP status / meta / CORS"))
 TEXT["C17"] = _t("Tables through the real Service.ServeHTTP: every predefined error code and custom ones on access / get / call; meta status values {-1,0,100,200,299,300..599 samples,600,1000} on header-auth, access and call responses with ok and error bases (status and the sequence of service requests after it); header names in three letter cases incl. the protected ones, Set-Cookie accumulation over auth+call meta, direct-response variants; Origin strings against an allow-list for GET, POST, OPTIONS with and without header authentication. matchesOrigins is additionally enumerated exhaustively over all origins <= 3 (4) symbols of an 11-symbol alphabet (ASCII and non-ASCII case pairs, Kelvin sign, two invalid bytes, U+FFFD) for all single and sampled double allow-lists. TLC checks every row against spec/fn/HttpStatus.tla and Origin.tla.",
                  "function tables through the real HTTP handler and matchesOrigins, checked by TLC against spec/fn/HttpStatus.tla and spec/fn/Origin.tla",
-                 note="WebSocket upgrade rows (Sec-WebSocket-* protection) are not in the table yet; HTTP only. Bounded alphabets.")
+                 note="WebSocket upgrades (origin refusal before any service request, wsHeaderAuth meta status and headers with the handshake's own Sec-WebSocket-* / Upgrade values intact) are rows of table wsupgrade. Bounded alphabets.")
 import json as _json
 
 PROPS["C16"] = dict(run=tables.tables_run(["render", "httppost"], "HTTP rendering"))
